@@ -35,6 +35,9 @@ def main():
         want = os.path.realpath(os.environ.get('HCIPY_VERIF_REPO', '/repo'))
         if not os.path.realpath(hcipy.__file__).startswith(want + os.sep):
             raise common.MachineryError('hcipy imported from %s, expected under %s' % (hcipy.__file__, want))
+        import glob
+        for old in glob.glob(os.path.join(common.REPLAY_DIR, prop + '-*.json')):
+            os.remove(old)          # replay files belong to the latest run of this property
         if not args.no_build:
             if hasattr(mod, 'regenerate'):
                 mod.regenerate(ctx)      # tie T2/T3: rewrite lean/HcipyVerif/Gen/*.lean from the running code
